@@ -453,6 +453,11 @@ func c28Prepare(t *rapid.T, st *vfkit.Stats, h *c28History, overlapping bool) *c
 			rt := kmsg.NewMetadataRequestTopic()
 			rt.TopicID = id
 			rt.Topic = nil
+			// from v10 the name next to a topic id is nullable; an empty non-null name is a valid encoding too
+			if rapid.IntRange(0, 2).Draw(t, "emptyNameDie") == 1 {
+				rt.Topic = kmsg.StringPtr("")
+				st.Class("by-id-entry-with-empty-non-null-name")
+			}
 			req.Topics = append(req.Topics, rt)
 		}
 	}
@@ -748,6 +753,11 @@ type c28Backend struct {
 	wg    sync.WaitGroup
 }
 
+const (
+	c28BackendNode = int32(7)
+	c28BackendHost = "broker-7.kafscale.svc"
+)
+
 func c28StartBackend() (*c28Backend, error) {
 	ln, err := net.Listen("tcp4", "127.0.0.1:0")
 	if err != nil {
@@ -783,6 +793,21 @@ func (b *c28Backend) serve(conn net.Conn) {
 		hdr, req, err := protocol.ParseRequest(fr.Payload)
 		if err != nil {
 			return
+		}
+		if fc, ok := req.(*kmsg.FindCoordinatorRequest); ok {
+			// cmd/broker answers every FindCoordinator by naming itself
+			b.asked.Add(1)
+			out := kmsg.NewPtrFindCoordinatorResponse()
+			out.NodeID, out.Host, out.Port = c28BackendNode, c28BackendHost, 9092
+			for _, k := range fc.CoordinatorKeys {
+				c := kmsg.NewFindCoordinatorResponseCoordinator()
+				c.Key, c.NodeID, c.Host, c.Port = k, c28BackendNode, c28BackendHost, 9092
+				out.Coordinators = append(out.Coordinators, c)
+			}
+			if protocol.WriteFrame(conn, protocol.EncodeResponse(hdr.CorrelationID, hdr.APIVersion, out)) != nil {
+				return
+			}
+			continue
 		}
 		mr, ok := req.(*kmsg.MetadataRequest)
 		store := b.store.Load()
@@ -884,12 +909,20 @@ func TestVF_C28_Metadata(t *testing.T) {
 func TestVF_C28_NotReady(t *testing.T) {
 	st := vfkit.NewStats("C28", "notready")
 	defer st.Flush()
+	backend, err := c28StartBackend()
+	if err != nil {
+		fmt.Println("VF-INCONCLUSIVE: backend listener: " + err.Error())
+		t.Fatalf("VF-INCONCLUSIVE: backend listener: %v", err)
+	}
+	defer backend.stop()
+	defer func() { st.Note("requests_that_reached_a_backend", backend.asked.Load()) }()
 	rapid.Check(t, func(t *rapid.T) {
 		st.Eval()
 		snap := c28DrawSnapshot(t)
 		store := metadata.NewInMemoryStore(snap.cluster())
+		backend.store.Store(store)
 		p := &proxy{advertisedHost: c28Host, advertisedPort: c28Port, store: store, logger: c28Discard(),
-			dialTimeout: time.Second, cacheTTL: time.Minute, brokerAddrs: map[string]string{}, topicNames: map[[16]byte]string{},
+			dialTimeout: 5 * time.Second, cacheTTL: time.Minute, brokerAddrs: map[string]string{}, topicNames: map[[16]byte]string{},
 			backendRetries: 1, backendBackoff: time.Millisecond}
 		mode := rapid.SampledFrom([]string{"metadata/notready", "coordinator/notready", "metadata/notready", "coordinator/ready"}).Draw(t, "mode")
 		ready := strings.HasSuffix(mode, "/ready") // ready metadata is the other leg
@@ -898,11 +931,27 @@ func TestVF_C28_NotReady(t *testing.T) {
 		corr := int32(rapid.Int32Range(1, 1<<30).Draw(t, "corr"))
 		st.Class(fmt.Sprintf("%s-ready=%v", api, ready))
 
+		if ready && rapid.IntRange(0, 3).Draw(t, "backendDie") != 1 {
+			// a ready proxy has brokers behind it; the fake broker names ITSELF as coordinator
+			p.backends = []string{backend.ln.Addr().String()}
+			p.setCachedBackends(p.backends)
+			p.touchHealthy()
+			st.Class("proxy-has-reachable-backend")
+		}
 		if api == "coordinator" {
 			req := kmsg.NewPtrFindCoordinatorRequest()
-			req.Version = 3 // the only version the proxy advertises
-			req.CoordinatorKey = rapid.SampledFrom([]string{"g", "group-1", "", "txn.a"}).Draw(t, "key")
-			req.CoordinatorType = int8(rapid.IntRange(0, 1).Draw(t, "ctype"))
+			// v3 is the only version the proxy advertises; the others are still answered by it
+			req.Version = rapid.SampledFrom([]int16{3, 3, 4, 2, 1, 0}).Draw(t, "fcVersion")
+			keys := []string{rapid.SampledFrom([]string{"g", "group-1", "", "txn.a"}).Draw(t, "key")}
+			req.CoordinatorKey = keys[0]
+			req.CoordinatorType = int8(rapid.SampledFrom([]int{1, 0}).Draw(t, "ctype")) // 0 group, 1 transaction (v1+)
+			if req.Version >= 4 {
+				for i, n := 0, rapid.IntRange(0, 2).Draw(t, "moreKeys"); i < n; i++ {
+					keys = append(keys, rapid.SampledFrom([]string{"g2", "txn.b", "g"}).Draw(t, "key"))
+				}
+				req.CoordinatorKeys = keys
+			}
+			st.Class(fmt.Sprintf("fc-v%d-type%d", req.Version, req.CoordinatorType))
 			reply, err := c28RoundTrip(p, c28EncodeRequest(req, corr))
 			if err != nil {
 				fmt.Println("VF-INCONCLUSIVE: " + err.Error())
@@ -912,33 +961,52 @@ func TestVF_C28_NotReady(t *testing.T) {
 				st.Class("no-reply")
 				return
 			}
-			gotCorr, body, err := c28SplitReply(reply, true)
+			gotCorr, body, err := c28SplitReply(reply, req.Version >= 3)
 			if err != nil {
-				t.Fatalf("find-coordinator reply: %v", err)
+				t.Fatalf("find-coordinator v%d reply: %v", req.Version, err)
 			}
 			if gotCorr != corr {
 				t.Fatalf("find-coordinator reply correlation id %d, want %d", gotCorr, corr)
 			}
 			resp := kmsg.NewPtrFindCoordinatorResponse()
-			resp.Version = 3
+			resp.Version = req.Version
 			if err := resp.ReadFrom(body); err != nil {
-				t.Fatalf("find-coordinator reply does not decode: %v", err)
+				t.Fatalf("find-coordinator v%d reply does not decode: %v", req.Version, err)
 			}
-			if resp.ErrorCode == 0 {
-				if resp.NodeID != 0 || resp.Host != c28Host || resp.Port != c28Port {
-					t.Fatalf("find-coordinator (ready=%v) names coordinator {%d %q %d}, want the proxy {0 %q %d}", ready, resp.NodeID, resp.Host, resp.Port, c28Host, c28Port)
-				}
-				if !ready {
-					t.Fatalf("find-coordinator answered success although the proxy is not ready")
-				}
-			} else {
-				// an error reply must not name some other node
-				if !(resp.NodeID == -1 || resp.NodeID == 0) || !(resp.Host == "" || resp.Host == c28Host) || !(resp.Port == 0 || resp.Port == c28Port) {
-					t.Fatalf("find-coordinator error reply names a node that is not the proxy: {%d %q %d}", resp.NodeID, resp.Host, resp.Port)
+			// judge every coordinator the reply names: top level (v0-3) and per key (v4+)
+			type named struct {
+				err  int16
+				node int32
+				host string
+				port int32
+			}
+			var all []named
+			if req.Version <= 3 {
+				all = append(all, named{resp.ErrorCode, resp.NodeID, resp.Host, resp.Port})
+			}
+			for _, c := range resp.Coordinators {
+				all = append(all, named{c.ErrorCode, c.NodeID, c.Host, c.Port})
+			}
+			if len(all) == 0 {
+				st.Class("fc-reply-names-nobody")
+			}
+			for _, n := range all {
+				if n.err == 0 {
+					if n.node != 0 || n.host != c28Host || n.port != c28Port {
+						t.Fatalf("find-coordinator v%d type %d keys %q (ready=%v, backend=%v) names coordinator {%d %q %d}, want the proxy {0 %q %d}",
+							req.Version, req.CoordinatorType, keys, ready, len(p.backends) > 0, n.node, n.host, n.port, c28Host, c28Port)
+					}
+					if !ready {
+						t.Fatalf("find-coordinator answered success although the proxy is not ready")
+					}
+				} else if !(n.node == -1 || n.node == 0) || !(n.host == "" || n.host == c28Host) || !(n.port == 0 || n.port == c28Port) {
+					// an error reply must not name some other node
+					t.Fatalf("find-coordinator v%d error reply names a node that is not the proxy: {%d %q %d}", req.Version, n.node, n.host, n.port)
 				}
 			}
-			st.NonTrivial("coord", ready, req.CoordinatorKey, req.CoordinatorType, snap.Brokers)
-			st.Sample(map[string]any{"api": api, "ready": ready, "key": req.CoordinatorKey, "node": resp.NodeID, "host": resp.Host, "err": resp.ErrorCode})
+			if st.NonTrivial("coord", ready, req.Version, keys, req.CoordinatorType, len(p.backends), snap.Brokers) {
+				st.Sample(map[string]any{"api": api, "ready": ready, "version": req.Version, "type": req.CoordinatorType, "keys": keys, "backend": len(p.backends) > 0, "named": fmt.Sprint(all)})
+			}
 			return
 		}
 
@@ -970,6 +1038,9 @@ func TestVF_C28_NotReady(t *testing.T) {
 				id := metadata.TopicIDForName(rapid.SampledFrom(c28NamePool).Draw(t, "idname"))
 				x := kmsg.NewMetadataRequestTopic()
 				x.TopicID = id
+				if rapid.IntRange(0, 2).Draw(t, "emptyNameDie") == 1 {
+					x.Topic = kmsg.StringPtr("")
+				}
 				req.Topics = append(req.Topics, x)
 				asked = append(asked, rt{ID: fmt.Sprintf("%x", id)})
 			}
